@@ -181,7 +181,7 @@ func newWorld() (*world, error) {
 		add(clNoReady, nil, e2e.NeverReady, false),
 		add(clDisabled, func(uc *proxyv1alpha1.UpstreamCluster) { uc.Spec.Servers[0].Disabled = &yes }, e2e.AlwaysReady, false),
 		add(clEmpty, func(uc *proxyv1alpha1.UpstreamCluster) {
-			uc.Spec.DispatchPolicies[0].UpstreamSubset = []string{"http://127.0.0.1:1"}
+			uc.Spec.DispatchPolicies[0].UpstreamSubset = []string{"http://127.0.0.1:2"}
 		}, e2e.AlwaysReady, true),
 	}
 	for _, err := range steps {
@@ -189,11 +189,11 @@ func newWorld() (*world, error) {
 			return nil, err
 		}
 	}
-	// a ready endpoint behind which nothing listens
-	dead := e2e.NewUpstream(w.upstreamHandler)
-	deadURL := dead.URL()
-	dead.Close()
-	if _, err := w.gw.AddCluster(e2e.Cluster(clDown, deadURL), e2e.AlwaysReady, true); err != nil {
+	// A ready endpoint behind which nothing listens. NOT "a listener opened and closed again": on a shared machine
+	// another process (another property's gateway rig!) can bind the freed port, and then answers the forwarded
+	// request itself (seen once in a thorough run: 503 "cluster not being proxied" from a foreign gateway).
+	// Port 1 (tcpmux) is privileged and unbound: connection refused.
+	if _, err := w.gw.AddCluster(e2e.Cluster(clDown, "http://127.0.0.1:1"), e2e.AlwaysReady, true); err != nil {
 		return nil, err
 	}
 	return w, nil
